@@ -20,7 +20,7 @@ Sanitizer reports, the allocator's own double/foreign-free detector and the allo
 import re
 
 from .common import hx, unhx, load_corpus
-from . import c09
+from . import c09, c16
 
 ID = "C12"
 ENGINE = "own"
@@ -143,6 +143,8 @@ class Ref:
     def __init__(self):
         self.slots = [None] * NSLOT
         self.nodes = []          # every node ever created
+        self.conns = [None] * 4  # connection objects: None | has an SM state (bool)
+        self.sms = [False] * 4   # detached SM states
 
     def live(self):
         return sum(n.blocks() for n in self.nodes if n.alive)
@@ -231,7 +233,72 @@ def expect(ref, op):
             if ref.slots[i] is not None:
                 ref.release(ref.slots[i])
                 ref.slots[i] = None
+        ref.conns = [None] * 4
+        ref.sms = [False] * 4
         return live("= end")
+
+    def small(tok, pfx):
+        return int(tok[1]) if re.fullmatch(pfx + "[0-3]", tok) else None
+
+    if k == "gth" and len(t) == 3:
+        if not (re.fullmatch(r"\d", t[1]) and re.fullmatch(r"\d", t[2])) or int(t[1]) > 8 or int(t[2]) > int(t[1]):
+            return bad
+        return live("= gth")
+    if k == "cnew" and len(t) == 2:
+        c = small(t[1], "c")
+        if c is None:
+            return bad
+        if ref.conns[c] is not None:
+            return "= err busy"
+        ref.conns[c] = False
+        return live("= ok")
+    if k == "crestore" and len(t) == 3:
+        c = small(t[1], "c")
+        if c is None or not hexok(t[2]):
+            return bad
+        if ref.conns[c] is None:
+            return "= err novar"
+        if ref.conns[c]:
+            return live("= rc -2")
+        if c16.py_parse(unhx(t[2])) is None:
+            return live("= rc -2")
+        ref.conns[c] = True
+        return live("= rc 0")
+    if k in ("smget", "smset") and len(t) == 3:
+        c, v = small(t[1], "c"), small(t[2], "s")
+        if c is None or v is None:
+            return bad
+        if k == "smget":
+            if ref.conns[c] is None:
+                return "= err novar"
+            if ref.sms[v]:
+                return "= err busy"
+            if ref.conns[c]:
+                ref.conns[c], ref.sms[v] = False, True
+                return live("= ok")
+            return live("= null")
+        if ref.conns[c] is None or not ref.sms[v]:
+            return "= err novar"
+        if ref.conns[c]:
+            return live("= rc -2")
+        ref.conns[c], ref.sms[v] = True, False
+        return live("= rc 0")
+    if k == "smfree" and len(t) == 2:
+        v = small(t[1], "s")
+        if v is None:
+            return bad
+        if not ref.sms[v]:
+            return "= err novar"
+        ref.sms[v] = False
+        return live("= ok")
+    if k == "crel" and len(t) == 2:
+        c = small(t[1], "c")
+        if c is None:
+            return bad
+        if ref.conns[c] is None:
+            return "= err novar"
+        ref.conns[c] = None
+        return live("= freed 1")
     if k == "new" and len(t) == 2:
         w, e = dest(t[1])
         if e:
@@ -816,6 +883,44 @@ def case_stage2(rng, tier):
     return finish(g, rng.random() < 0.5)
 
 
+def case_handover(rng, tier):
+    """SM state handed over BETWEEN connection objects (get / set / free), global timed handlers left
+    behind at xmpp_ctx_free; mixed with ordinary stanza traffic; ends with everything released"""
+    g = Gen(rng)
+    ref = g.ref
+    for _ in range(rng.choice([4, 8, 16, 30])):
+        r = rng.random()
+        conns = [i for i in range(4) if ref.conns[i] is not None]
+        free_c = [i for i in range(4) if ref.conns[i] is None]
+        held = [i for i in range(4) if ref.sms[i]]
+        free_s = [i for i in range(4) if not ref.sms[i]]
+        if r < 0.18 and free_c:
+            g.emit("cnew", "c%d" % rng.choice(free_c))
+        elif r < 0.36 and conns:
+            c = rng.choice(conns)
+            g.emit("crestore", "c%d" % c, hx(c16.rblob(rng)))
+        elif r < 0.54 and conns and free_s:
+            g.emit("smget", "c%d" % rng.choice(conns), "s%d" % rng.choice(free_s))
+        elif r < 0.70 and conns and held:
+            g.emit("smset", "c%d" % rng.choice(conns), "s%d" % rng.choice(held))
+        elif r < 0.76 and held:
+            g.emit("smfree", "s%d" % rng.choice(held))
+        elif r < 0.84 and conns:
+            g.emit("crel", "c%d" % rng.choice(conns))
+        elif r < 0.92:
+            n = rng.randrange(0, 9)
+            g.emit("gth", n, rng.randrange(0, n + 1))
+        else:
+            rng.choice([g.op_new, g.op_observe, g.op_rel, g.op_make])()
+    if rng.random() < 0.6:
+        order = [("crel", "c%d" % i) for i in range(4) if ref.conns[i] is not None] + \
+                [("smfree", "s%d" % i) for i in range(4) if ref.sms[i]]
+        rng.shuffle(order)
+        for o in order:
+            g.emit(*o)
+    return finish(g, rng.random() < 0.5)
+
+
 def case_ctx2(rng, tier):
     """known finding D28 (second context: expat without the context's allocator) — its own stream"""
     return ["ctx2 " + hx(rdoc(rng)), "end"]
@@ -840,7 +945,7 @@ def generate(rng, tier, override=0):
     cases = fixed_cases()
     n = override or (500 if tier == "quick" else 8000)
     kinds = [(case_random, 0.40), (lambda r, t: case_random(r, t, True), 0.20), (case_survivors, 0.22),
-             (case_attrs, 0.08), (case_stage2, 0.10)]
+             (case_attrs, 0.06), (case_stage2, 0.06), (case_handover, 0.06)]
     for _ in range(n):
         r = rng.random()
         acc = 0.0
